@@ -874,6 +874,9 @@ theorem runOp_costs (op : Op) : Costs (runOp op) (op.dataLen + 16) := by
   | kpWriteKeyStore d => exact (dataOutCmd_costs _ _ _).mono (by simp only [Op.dataLen]; omega)
   | kpReadKeyStore => exact Costs.mono (a := 2) (dataInCmd_costs _ _ _) (by omega)
   | reset r => exact Costs.mono (a := 4) (reset_costs r) (by omega)
+  | logCmd t ps => exact Costs.mono (a := 1) (simpleCmd_costs _ _) (by omega)
+  | fuseProgram a d m => exact (dataOutCmd_costs _ _ _).mono (by simp only [Op.dataLen]; omega)
+  | fuseRead a n m => exact Costs.mono (a := 2) (dataInCmd_costs _ _ _) (by omega)
 
 /-- every operation, both transports, strict and partial reads, ANY replayed stream (well-formed or garbage) -/
 theorem reads_bounded (h : Host) (op : Op) (hpeer : (∃ cs, h.peer = .script cs) ∨ h.peer = .none) :
